@@ -90,6 +90,12 @@ BRACKETS = [[0.0, 1.0], [-2.0, 3.0], [0.01, 10.0]]
 FRACTIONS = [0.01, 0.25, 0.5, 0.99]
 
 
+def _spacing_below(x, dtype):
+    """Distance from x to the next float towards zero in ``dtype`` (the largest spacing inside [0, x])."""
+    t = torch.tensor(x, dtype=dtype)
+    return float(t - torch.nextafter(t, torch.zeros_like(t))) if x != 0 else 0.0
+
+
 def _numel(shape):
     n = 1
     for d in shape:
@@ -293,7 +299,7 @@ def bisect_abort(ctx, block):
     except _Hang:
         _HUNG.append(1)
         ctx.violation("bisect", "hang", f"bisect(precision={precision}, max_iter={max_iter}) on [{lo}, {hi}] did not stop "
-                      f"within the watchdog ({calls['n']} function evaluations so far); the model needs "
+                      f"within the watchdog; the model needs "
                       f"{nstar} halvings", observed="hang", expected="RuntimeError" if expect_raise else "a root", block=block)
         return
     except RuntimeError as e:
@@ -402,7 +408,7 @@ def _iv_call(module, product, lm, mm, t, v, precision):
 def _iv_verdict(product, call, K, case, v, iv, precision, direction):
     """Price-space oracle.  f = the model's price (strictly monotone, direction d).  The returned iv is
     within `precision` of a volatility reproducing the price iff (for d = +1)
-        f(iv + precision) >= f(v) - tolP   and   f(iv - precision) <= f(v) + tolP,
+        f(min(iv + precision, 1)) >= f(v) - tolP   and   f(max(iv - precision, 0.001)) <= f(v) + tolP,
     tolP = rounding of the implementation's price evaluations (which bisect compares).  Returns
     (ok, informative) - informative: the price pins v down to ~precision (f moves by more than
     10 tolP over 2 precisions), so the case is not vacuous."""
@@ -411,11 +417,12 @@ def _iv_verdict(product, call, K, case, v, iv, precision, direction):
     f = lambda x: U * model_price(product, call, s, m, t, max(float(x), 1e-12))
     fv = f(v)
     tolP = price_tol(product, s, m, t, v, K, float(fv))
-    hi, lo = f(iv + precision), f(iv - precision)
+    # candidates are volatilities of the bracket (the model's monotonicity is only established there)
+    hi, lo = f(min(iv + precision, V_HI)), f(max(iv - precision, V_LO))
     if direction < 0:
         hi, lo = lo, hi
     ok = (hi >= fv - tolP) and (lo <= fv + tolP)
-    informative = abs(f(min(v + 2 * precision, 2.0)) - f(max(v - 2 * precision, 1e-6))) > 10 * tolP
+    informative = abs(f(min(v + 2 * precision, V_HI)) - f(max(v - 2 * precision, V_LO))) > 10 * tolP
     return ok, informative, float(fv), tolP
 
 
@@ -577,11 +584,15 @@ def run(ctx):
     fractions = FRACTIONS + [extra_frac]
     precisions = [1e-2, 1e-4, 1e-6] + ([] if quick else [extra_prec])
     ctx.alphabet("fractions", fractions)
-    ctx.alphabet("precisions", precisions)
-    ctx.alphabet("brackets", BRACKETS)
     ctx.alphabet("programs", sorted(PROGRAMS))
     ctx.alphabet("slopes(per element)", SLOPES)
-    shapes = [[], [3], [2, 2]]
+    shapes = [[], [3], [2, 2]] + ([] if quick else [[5], [2, 3]])
+    brackets = BRACKETS + ([] if quick else [[-10.0, -0.5], [0.5, 64.0]])
+    if not quick:
+        precisions.append(1e-8)
+    ctx.alphabet("brackets", brackets)
+    ctx.alphabet("precisions", precisions)
+    ctx.alphabet("shapes", shapes)
     blocks = []
     for name, spec in PROGRAMS.items():
         for decreasing in (False, True):
@@ -592,13 +603,19 @@ def run(ctx):
                     continue
                 kinds = ["float", "tensor0"] + (["tensor"] if n > 1 else [])
                 for kind in kinds:
-                    brs = [b for b in BRACKETS if not (spec[4] and b[0] <= 0)]
+                    brs = [b for b in brackets if not (spec[4] and b[0] <= 0)]
                     if kind == "tensor":
                         bsets = [brs]                       # element i uses bracket i (cyclically)
                     else:
                         bsets = [[b] for b in brs]
                     for bset, precision in itertools.product(bsets, precisions):
                         if quick and dname == "float32" and precision != 1e-4:
+                            continue
+                        # a precision below the spacing of the bracket dtype's floats is unattainable there
+                        # (python-float brackets become float32 tensors): such combinations are not searches
+                        # the statement covers
+                        bd = torch.float32 if (kind == "float" or dname == "float32") else torch.float64
+                        if precision < max(_spacing_below(abs(x), bd) for b in bset for x in b):
                             continue
                         rots = range(len(fractions)) if not quick or (precision == 1e-4 and dname == "float64") else [0, 2]
                         for rot in rots:
@@ -636,7 +653,7 @@ def run(ctx):
     for product in B.PRODUCTS:
         for call in ([True, False] if product in ("european", "european_binary") else [True]):
             for K in ks:
-                for precision in ([None] if quick or K != 1.3 else [None, 1e-4, 1e-9]):
+                for precision in ([None] if quick else [None, 1e-4, 1e-9]):
                     ivb.append({"product": product, "call": call, "K": K, "grid": grid, "precision": precision})
                 if K in (1.0, 1.3):
                     for direction in (1, -1):
